@@ -20,7 +20,7 @@ from cotengra.hypergraph import HyperGraph
 from cotengra.scoring import CompressedStatsTracker
 
 from . import gen, refimpl
-from .c18 import relabel, reduced_in_leaf, prod
+from .c18 import relabel, reduced_in_leaf, prod, replay_verdict
 
 PROP = "C20"
 LEVEL = "proof"
@@ -239,13 +239,27 @@ def finder_oracle(case, net):
             bad.append(({"site": name, "kind": "raises"}, repr(e)[:200]))
             continue
         runs += 1
-        why = valid_complete_tree(tree, len(net.inputs))
+        try:
+            why = valid_complete_tree(tree, len(net.inputs))
+        except Exception as e:
+            why = "invalid:" + type(e).__name__
         if why:
-            bad.append(({"site": name, "kind": why}, [list(p) for p in tree.get_ssa_path()]))
+            bad.append(({"site": name, "kind": why.split(":")[0]}, why))
     return bad, runs
 
 
+class ImplRaises(Exception):
+    """The implementation raised inside compressed_contract_stats / HyperGraph / the tracker."""
+
+
 def analyse(case):
+    try:
+        return _analyse(case)
+    except (KeyError, IndexError, ValueError, RuntimeError, AttributeError, TypeError, ZeroDivisionError) as e:
+        raise ImplRaises(repr(e)[:200])
+
+
+def _analyse(case):
     net, tree, order = build(case)
     n = len(net.inputs)
     late = case["late"]
@@ -339,7 +353,15 @@ def correspond(ctx, drv, case, runs, path):
 
 
 def check_case(ctx, drv, case):
-    net, tree, order, runs, api, path, exact = analyse(case)
+    try:
+        net, tree, order, runs, api, path, exact = analyse(case)
+    except ImplRaises as e:
+        sig = {"site": "compressed_contract_stats", "kind": "raises"}
+        ctx.case(case, nontrivial=True)
+        ctx.violation(sig, {"case": case, "detail": str(e), "signature": sig},
+                      "compressed_contract_stats raises on an ordinary network: %s" % e)
+        ctx.count("oracle_mismatch:raises")
+        return
     feats = net.features()
     for f in feats:
         ctx.count("feature:" + f)
@@ -361,7 +383,7 @@ def check_case(ctx, drv, case):
         bad += b2
         ctx.count("finder_runs", nruns)
     for sig, detail in bad:
-        ctx.violation(sig, {"case": case, "detail": detail},
+        ctx.violation(sig, {"case": case, "detail": detail, "signature": sig},
                       "compressed estimate differs from the exact figure: %s %s" % (sig, str(detail)[:200]))
         ctx.count("oracle_mismatch:" + sig["site"])
     if drv is not None:
@@ -385,7 +407,10 @@ def run(ctx, drv):
 
 
 def _oracle_only(case):
-    net, tree, order, runs, api, path, exact = analyse(case)
+    try:
+        net, tree, order, runs, api, path, exact = analyse(case)
+    except ImplRaises as e:
+        return [({"site": "compressed_contract_stats", "kind": "raises"}, str(e))]
     bad = oracle(case, net, tree, runs, api, path, exact)
     if case.get("finders"):
         bad += finder_oracle(case, net)[0]
@@ -399,7 +424,8 @@ def search(ctx):
             break
         case = gen_case(ctx.rng, "thorough")
         for sig, detail in _oracle_only(case):
-            if ctx.violation(sig, {"case": case, "detail": detail}, "compressed estimate differs: %s" % sig):
+            if ctx.violation(sig, {"case": case, "detail": detail, "signature": sig},
+                             "compressed estimate differs: %s" % sig):
                 found = True
         if found:
             break
@@ -407,4 +433,8 @@ def search(ctx):
 
 
 def replay(ctx, obj):
-    return not _oracle_only(obj["case"])
+    if "case" not in obj:
+        print("# nothing to re-execute: this file records an undischarged obligation / correspondence "
+              "(no failing input was found)")
+        return True
+    return replay_verdict(ctx, obj, [sig for sig, _ in _oracle_only(obj["case"])])
